@@ -373,3 +373,61 @@ def part_names_positional(ck, F, rule="COVER-xlsx"):
               "save_xlsx_to_writer names a package part after Worksheet.sheet_id: after a sheet was deleted or moved the relationship "
               "file no longer sits next to its worksheet and the importer loses (or swaps) the sheet's external hyperlinks", f, l)
     ck.ob(rule, "save_xlsx_to_writer|part numbers", n >= 2, "expected at least two positional part names in save_xlsx_to_writer, found %d" % n, b.file, b.line)
+
+
+def flag_attribute_pairing(ck, F, rule="COVER-xlsx"):
+    """An optional attribute is written according to its own flag: wherever the xlsx exporter branches on a boolean field `f` of
+    a workbook type and one branch selects a literal piece of XML that names an attribute (` applyFill="0"`), the attribute --
+    converted from camelCase to snake_case -- is not the name of a *different* field of the same type.  `applyFill` chosen by
+    `apply_font` writes one category of a named style under another's flag; the reader then restores the wrong one."""
+    import re
+    from mir import const_str, op_place, place_proj
+    from rules_attr import sources
+
+    def snake(a):
+        return re.sub(r"(?<!^)([A-Z])", lambda m: "_" + m.group(1), a).lower()
+    n = 0
+    for path in sorted(F.body_paths()):
+        h = F.heads[path]
+        if h["crate"] != "ironcalc" or "/export/" not in h["file"]:
+            continue
+        b = F.body(path)
+        qn = b.qname.split("::", 1)[-1]
+        for bi, blk in enumerate(b.blocks):
+            t = blk["t"]
+            if t["k"] != "switch" or t["ty"] != "bool":
+                continue
+            fl = {(x[1], x[2]) for x in sources(b, t["o"]) if x[0] == "field"}
+            if len(fl) != 1:
+                continue
+            owner, fld = next(iter(fl))
+            adt = F.adts.get(owner) or {}
+            names = {f.get("name") for v in adt.get("variants", []) for f in v.get("fields", [])}
+            if fld not in names:
+                continue
+            # literals selected in the two arms (straight-line code up to the merge)
+            lits = []
+            for tgt in [x for _, x in t["targets"]] + [t["otherwise"]]:
+                cur, steps = tgt, 0
+                while cur is not None and steps < 4:
+                    steps += 1
+                    for s in b.blocks[cur]["s"]:
+                        for o in ([s["rv"].get("o")] if s["rv"]["k"] in ("use", "cast") else []):
+                            cs = const_str(o) if o else None
+                            if cs:
+                                lits.append((cs, cur))
+                    nt = b.blocks[cur]["t"]
+                    if nt["k"] != "goto" or len(b.preds(nt["to"])) > 1:
+                        break
+                    cur = nt["to"]
+            for lit, lb in lits:
+                for attr in re.findall(r'([A-Za-z][A-Za-z0-9]*)="', lit):
+                    sn = snake(attr)
+                    n += 1
+                    wrong = sn in names and sn != fld
+                    f, l = b.loc(bi)
+                    ck.ob(rule, "%s|%s written under %s.%s" % (qn, attr, owner.rsplit("::", 1)[-1], fld), not wrong,
+                          "%s writes the attribute %s according to the flag %s.%s, but %s.%s is a field of its own: the two categories are exported "
+                          "under each other's flag and the importer restores the wrong one" % (qn, attr, owner.rsplit("::", 1)[-1], fld, owner.rsplit("::", 1)[-1], sn),
+                          f, l, sample={"fn": qn, "attribute": attr, "flag": fld})
+    ck.ob(rule, "flag-attribute pairs", n >= 8, "only %d (flag, attribute literal) pairs found in the exporter (anchor lost?)" % n)
